@@ -33,11 +33,14 @@ Uniform16(h, n) == \A k \in 1..16 : Abs(16 * h[k] - n) <= 31 * (ISqrt(n) + 1)
 \* every coordinate of every mask is fresh: a coordinate repeats the same coordinate of the previous mask with probability 2^-32;
 \* up to 2 + npairs/2^29 coincidences are accepted (eight times the expectation plus two; false-alarm probability < 1e-11 per stream)
 FreshCoords(same, npairs) == same <= 2 + npairs \div 536870912
+\* an error of exactly 0 has probability about 0.4 / (alpha 2^32): eight plus ten times the expectation are accepted (a clipped or skipped noise term shows as a pile of exact zeros)
+FewZeros(zeros, n, s32) == s32 >= 1 => zeros <= 8 + (4 * n) \div s32
 StreamOK(s, ev) == IF ev.exact = 1 THEN s.mx = 0 /\ s.s2 = 0                                   \* alpha = 0: noiseless, exactly
                    ELSE /\ s.n >= 500
                         /\ SdIs64(s, ev.s32)                                                     \* neither larger (correctness) nor smaller (security)
                         /\ Abs(s.s1) <= 8 * 64 * (ISqrt(s.n) + 1) + s.n                          \* centred: |mean| <= 8 sigma / sqrt(n)  (+1 unit of rounding per sample)
                         /\ s.mx < 640 + 64                                                       \* no sample beyond 10 sigma
+                        /\ FewZeros(ev.zeros, s.n, ev.s32)
 TEnd == /\ Ev.e = "StreamEnd"
         /\ verdict' = (verdict /\ StreamOK(st[Ev.s], Ev) /\ Uniform16(Ev.hist, Ev.nmask) /\ FreshCoords(Ev.same, Ev.npairs))
         /\ UNCHANGED <<st, memo, seen, nrand>>
